@@ -57,6 +57,10 @@ def specs_for(ctx):
         rules = rc.sampled_rules(rng, w.modules, 40, max_batch=3, strict_bias=0.0)
         # names rendered as they are, collision-free, or as string prefixes / substrings of their siblings
         specs.append(_episode(rng, w, rules, n_add=2, render=rng.choice(["ident", "clean", "adv", "adv2"])))
+    # worlds shaped like scanned trees: every package has an '__init__' module that imports and is imported
+    n_init = 25 if ctx.quick else 500
+    specs += rc.package_init_specs(rng, n_init, partners=True)
+    meta["worlds_with_package_init_modules"] = n_init
     meta["random_worlds"] = n_worlds
     return specs, meta
 
